@@ -10,3 +10,6 @@ open Gossamer.C09
 #print axioms C09_result_prefix
 #print axioms C09_unguarded_wrong
 #print axioms C09_unguarded_counterexample
+#print axioms C09_append_frame
+#print axioms C09_tx_frame
+#print axioms C09_rollback_restores
